@@ -288,6 +288,22 @@ func (r *rw) rewriteTime(af *ast.File) bool {
 			return true
 		}
 		if fid, isId := call.Fun.(*ast.Ident); isId {
+			if _, isBuiltin := r.info.Uses[fid].(*types.Builtin); isBuiltin && fid.Name == "append" && len(call.Args) >= 2 {
+				// append(b, ...) on a []byte: when the elements fit into the spare capacity they are written into the
+				// backing array in place - memory that every other holder of that array shares. The write becomes an
+				// event of the race monitor.
+				if t := r.info.TypeOf(call.Args[0]); t != nil {
+					if sl, isSlice := t.Underlying().(*types.Slice); isSlice {
+						if b, isBasic := sl.Elem().Underlying().(*types.Basic); isBasic && b.Kind() == types.Uint8 {
+							if _, plain := t.(*types.Slice); plain {
+								call.Fun = &ast.SelectorExpr{X: ident("vsched"), Sel: ident("AppendBytes")}
+								changedAny = true
+							}
+						}
+					}
+				}
+				return true
+			}
 			if _, isBuiltin := r.info.Uses[fid].(*types.Builtin); isBuiltin && fid.Name == "make" && len(call.Args) >= 1 {
 				// make(chan T) / make(chan T, 0): an unbuffered channel, modelled as a registered one-slot channel
 				if t := r.info.TypeOf(call.Args[0]); t != nil {
